@@ -1009,9 +1009,9 @@ class ListBox(Widget, WidgetContainerMixin):
         self.set_focus_pending = None
 
         # new position
-        _new_focus_widget, position = self._body.get_focus()
-        if focus_pos == position:
-            # do nothing
+        new_focus_widget, position = self._body.get_focus()
+        if new_focus_widget is None or focus_pos == position:
+            # the list was emptied since the change was requested, or nothing changed: do nothing
             return None
 
         # restore old focus temporarily
